@@ -115,6 +115,8 @@ class AbstractBinTable(metaclass=ABCMeta):
             return False
         if self.width != other.width:
             return False
+        if type(self) != type(other):  # tables of different backends are equal iff their content is
+            return self.to_list() == other.to_list()
         return self.data == other.data
 
     def __and__(self, other: 'AbstractBinTable') -> 'AbstractBinTable':
@@ -539,7 +541,9 @@ class BinTableNumpy(AbstractBinTable):
             return False
         if self.width != other.width:
             return False
-        return (self.data == other.data).all()
+        if type(self) != type(other):  # tables of different backends are equal iff their content is
+            return self.to_list() == other.to_list()
+        return bool((self.data == other.data).all())
 
     def __hash__(self):
         return hash(self.to_tuple())
@@ -740,6 +744,8 @@ class BinTableBitarray(AbstractBinTable):
             return False
         if self.width != other.width:
             return False
+        if type(self) != type(other):  # tables of different backends are equal iff their content is
+            return self.to_list() == other.to_list()
         return self.data == other.data
 
     def __hash__(self):
